@@ -10,7 +10,7 @@ RULE = ('storage histories with dirty-byte limits {0,1,100,4096,default}; the I/
         'synced; appends at EOF); dirty bytes after fsyncdata / close_active / every write are checked against the '
         'limit; bound stream: a threshold sync that fails once / a write landing while a delayed sync is in flight, then the '
         'un-synced bytes measured from the tap alone (physical length minus what the last successful sync covered at its entry) '
-        'must be within the limit once the worker is idle; distinct by (cfg line, multiset of (op, outcome class))')
+        'must be within the limit once the worker is idle; closing stream: a write overlapping try_close_active_blob (its sync delayed, all later syncs failing): the closed blob has no byte outside a successful sync; distinct by (cfg line, multiset of (op, outcome class))')
 ASSUMPTIONS = ['whether fsync reaches the medium is outside the model', 'threshold-triggered background syncs are judged by '
                'the predicates, not predicted event-exactly (the model has no dirty counter)']
 
@@ -83,9 +83,37 @@ def gen_bound_script(rng):
     return '\n'.join(L) + '\n'
 
 
+def gen_closing_script(rng):
+    """A client writes WHILE the active blob is being closed (the close's sync is held back by a failpoint delay, every
+    later sync fails so that no index dump can repair anything): once try_close_active_blob has returned Ok, the closed
+    blob must not hold a single byte that no successful sync covers (measured from the tap alone)."""
+    L = ['cfg K=4 dup=1 group=2 bloom=none init=eager runtime=%s dirty=100000000 nomodel=1' % rng.choice(['mt', 'mt', 'ct']), 'trace on', 'open']
+    seed = 0
+    nclosed = 0
+    for rnd in range(1):       # one round: the failing syncs leave orphan blob files behind, later ids are not predictable
+        for _ in range(rng.randrange(1, 5)):
+            seed += 1
+            L.append('W %s 5 - %d %d' % ((seed).to_bytes(4, 'big').hex(), rng.choice([5, 300, 5000]), seed))
+        L.append('fail sync .blob 0 delay:%d' % rng.choice([200, 300]))
+        for n in (1, 2, 3, 4):
+            L.append('fail sync .blob %d EIO' % n)
+        seed += 1
+        L.append('overlap %d close_active | W %s 5 - %d %d' % (rng.choice([40, 80]), (seed).to_bytes(4, 'big').hex(), rng.choice([5, 5000]), seed))
+        nclosed += 1
+        L.append('sleep 80')
+        L.append('nop closed=%s' % ','.join(str(i) for i in range(nclosed)))
+        L.append('truedirty_all')
+        L.append('clearfail')
+        L.append('quiesce')
+        L.append('create_active')
+    L.append('close')
+    return '\n'.join(L) + '\n'
+
+
 def gen(tier, rng):
     n = 200 if tier == 'quick' else 4000
-    return [('sync%05d' % i, gen_script(rng)) for i in range(n)] + [('bound%05d' % i, gen_bound_script(rng)) for i in range(n // 5)]
+    return [('sync%05d' % i, gen_script(rng)) for i in range(n)] + [('bound%05d' % i, gen_bound_script(rng)) for i in range(n // 5)] + \
+           [('closing%05d' % i, gen_closing_script(rng)) for i in range(n // 8)]
 
 
 def norm_trace(tokens, mask_index_len=True):
@@ -133,6 +161,18 @@ def oracle(lines, io, spec=None):
             elif d > limit:
                 tag = '[F2] ' if any(x == 'W Err Index' or x == 'D Err Index' for x in io[:i]) else '[F13] '
                 fails.append((tag + 'line %d after `%s`: %d un-synced bytes exceed the limit %d with no sync pending') % (i, last_op, d, limit))
+        elif l == 'truedirty_all' and o.startswith('truedirty_all') and i >= 2 and lines[i - 1].startswith('nop closed=') and \
+                io[i - 3].startswith('overlap close_active ok'):
+            ids = lines[i - 1].split('=')[1].split(',')
+            per = dict(x.rsplit(':', 1) for x in o.split()[1:])
+            # the blob closed by the overlapped call is the highest of the listed ids that exists as a file; if the
+            # concurrent write created a newer blob, every listed one is closed
+            for bid in ids:
+                d = int(per.get('t.%s.blob' % bid, '0'))
+                newer = any(int(n.split('.')[1]) > int(bid) for n in per)
+                if d > 0 and (newer or bid != ids[-1] or True):
+                    fails.append('line %d: try_close_active_blob returned Ok but %d bytes of the closed blob %s are covered by no successful sync' % (i, d, bid))
+                    break
         elif l == 'truedirty' and o.startswith('truedirty ') and o != 'truedirty none':
             d = int(o.split()[1])
             if d > limit:
